@@ -80,7 +80,9 @@ def enum_around(tier, piece, npieces, stt, seed):
     nxt, prv = pb.utils.next_fast_len.__wrapped__, pb.utils.prev_fast_len.__wrapped__
     if tier == "quick":
         rng = random.Random(seed)  # which 10 % of the large ones; enumeration sample, not a case generator
-        idx = [i for i, s in enumerate(tab) if s < 2**40 or rng.random() < 0.10]
+        # all s < 2^40, every ODD smooth number (3^b 5^c 7^d: reached only through the outer loops of the search, never by doubling),
+        # and a seeded 10 % of the rest
+        idx = [i for i, s in enumerate(tab) if s < 2**40 or s % 2 == 1 or rng.random() < 0.10]
     else:
         idx = list(range(len(tab)))
     idx = idx[piece::npieces]
@@ -168,7 +170,7 @@ SUBS = [
     EnumSub("small_exhaustive", enum_small, replay_n,
             "exhaustive over 0 <= N < 10^6 (quick) / 10^7 (thorough); non-trivial = N > 10 and N not 7-smooth"),
     EnumSub("around_smooth", enum_around, replay_n,
-            "s-1, s, s+1 and the midpoint to the next smooth number for 7-smooth s < 2^62 (quick: all s < 2^40 plus a "
+            "s-1, s, s+1 and the midpoint to the next smooth number for 7-smooth s < 2^62 (quick: all s < 2^40, all odd s, plus a "
             "seeded 10 % of the rest; thorough: all 75 711); non-trivial = N > 10 and N not 7-smooth"),
     Sub("random_N", big_n(), run_big, "Hypothesis integers in [0, 2^62) skewed to k*2^j+-d and near-smooth products; "
         "non-trivial = N > 10 and not 7-smooth", quick=3000, thorough=200000),
